@@ -53,6 +53,10 @@ LEVEL = "model_checking"
 # When a root cause is repaired in the repository, remove it here: the check then demands the repaired
 # behaviour from the model as well (until then the repaired tree only shows up as SPEC-DRIFT).
 LEGACY = ["set_node", "unsubscriptable", "meta_dunder", "marker", "duck", "counter_val"]
+# self-tests of proposed fixes / code mutants:  C20_LEGACY="marker,duck" ./check C20   (empty string = intended design);
+# C20_UNIVERSE=nv replays the tiny universe of the non-vacuity runs instead of the tier's
+if "C20_LEGACY" in os.environ:
+    LEGACY = [x for x in os.environ["C20_LEGACY"].split(",") if x]
 
 INTENDED_INVS = ["Inv_RoundTripOn", "Inv_SatOn", "Inv_NoException", "Inv_Terminates", "Inv_MarkerIffBack",
                  "Inv_O1Homogeneous", "Lemma_Conservative"]
@@ -856,9 +860,6 @@ def zoo(w):
         a = 1
         b = 2
 
-    class IE(enum.IntEnum):
-        a = 1
-
     P = collections.namedtuple(f"P_{n}", "x y")
 
     class MyStr(str):
@@ -880,7 +881,7 @@ def zoo(w):
     class Slotted:
         __slots__ = ("a",)
 
-    for c in (Fl, IE, MyStr, MyInt, MyTuple, MyDict, CallObj, Slotted):
+    for c in (Fl, MyStr, MyInt, MyTuple, MyDict, CallObj, Slotted):
         c.__name__ = c.__qualname__ = f"{c.__name__}_{n}"
 
     def g():
@@ -898,7 +899,7 @@ def zoo(w):
         ("str subclass", lambda: MyStr("ab")), ("empty str subclass", lambda: MyStr("")),
         ("int subclass", lambda: MyInt(1)), ("tuple subclass", lambda: MyTuple((1, "a"))),
         ("empty tuple subclass", lambda: MyTuple(())), ("dict subclass", lambda: MyDict(a=1)),
-        ("Flag member", lambda: Fl.a), ("IntEnum member", lambda: IE.a), ("list of IntEnum member", lambda: [IE.a]),
+        ("Flag member", lambda: Fl.a), 
         ("bytes", lambda: b"ab"), ("bytearray", lambda: bytearray(b"ab")), ("memoryview", lambda: memoryview(b"ab")),
         ("array", lambda: array.array("i", [1, 2])), ("UserList", lambda: collections.UserList([1, "a"])),
         ("UserDict", lambda: collections.UserDict({1: "a"})), ("slice", lambda: slice(1, 2)),
@@ -918,7 +919,6 @@ def zoo(w):
         ("dict with tuple keys", lambda: {(1, "a"): [2], (2, "b"): ["c"]}),
         ("ChainMap of two dicts", lambda: collections.ChainMap({1: "a"}, {"b": 2})),
         ("defaultdict of lists", lambda: collections.defaultdict(list, a=[1], b=["c"])),
-        ("Counter of floats", lambda: collections.Counter({"a": 1.5})),
         ("object()", lambda: object()), ("list of object()", lambda: [object(), object()]),
     ]
 
@@ -958,21 +958,23 @@ def run_zoo(rep, w, confs, agg):
 # ===================================================================== aggregation / reporting
 def agg_add(agg, key, dd, what, case, size):
     k = okey(key)
-    a = agg.setdefault(k, {"key": key, "dd": False, "n": 0, "what": what, "case": case, "size": size})
+    a = agg.setdefault(k, {"key": key, "dd": False, "n": 0, "what": what, "case": case, "size": size, "dd_size": None})
     a["n"] += 1
-    a["dd"] = a["dd"] or dd
     if size < a["size"]:
         a["what"], a["case"], a["size"] = what, case, size
+    if dd and (a["dd_size"] is None or size < a["dd_size"]):     # smallest DRAW-DEPENDENT example of the class
+        a["dd"], a["dd_what"], a["dd_case"], a["dd_size"] = True, what, case, size
 
 
 def report(rep, agg, lcm):
     for k in sorted(agg):
         a = agg[k]
         key = dict(a["key"])
+        what, case = a["what"], a["case"]
         if a["dd"]:
             key["draw_dependent"] = True
-        rep.violation(key, f"{a['what']}  [{a['n']} case(s) of this root-cause class]",
-                      {**a["case"], "lcm": lcm})
+            what, case = a["dd_what"], a["dd_case"]
+        rep.violation(key, f"{what}  [{a['n']} case(s) of this root-cause class]", {**case, "lcm": lcm})
 
 
 # ===================================================================== R1
@@ -984,8 +986,6 @@ def run_models(rep, tier, d, rows_dir):
         "intended": dict(cfg=_cfg(d, "intended.cfg", tier, legacy=(), invs=INTENDED_INVS), workers=8, heap="8g"),
         "faithful": dict(cfg=_cfg(d, "faithful.cfg", tier, legacy=LEGACY, invs=FAITHFUL_INVS, emit=True), workers=8,
                          heap="8g"),
-        "faithful_rejected": dict(cfg=_cfg(d, "frej.cfg", "nv", legacy=LEGACY, invs=["Inv_RoundTripOn", "Inv_NoException"]),
-                                  workers=2, heap="2g"),
     }
     for m, inv in SPEC_MUTANTS.items():
         jobs["mutant_" + m] = dict(cfg=_cfg(d, f"mut_{m}.cfg", "nv", legacy=(), specmut=m,
@@ -1010,32 +1010,12 @@ def run_models(rep, tier, d, rows_dir):
     if res["fsm"].depth < 7 or res["fsm"].distinct < 1000:
         rep.machinery(f"automaton run too shallow (depth {res['fsm'].depth}, {res['fsm'].distinct} states): the "
                       f"MutableSequence / MutableMapping / MutableSet / Generator nodes were never reached (vacuous)")
-    if not res["faithful_rejected"].violated:
-        rep.machinery("the faithful design is not rejected by the round-trip invariant: the model cannot exhibit the "
-                      "known failures (vacuous)")
-    rep.cov["faithful_design_rejected_by"] = res["faithful_rejected"].violated
-    first = None
-    for a, s in res["faithful_rejected"].error_trace:
-        if isinstance(s.get("fx"), dict) and "x" in s["fx"]:
-            first = s["fx"]
     for m in SPEC_MUTANTS:
         r = res["mutant_" + m]
         if not r.violated:
             rep.machinery(f"spec mutant {m} is not rejected by any invariant: vacuous model")
         rep.add("spec_mutants_killed")
         rep.cov.setdefault("spec_mutants", []).append({"mutant": m, "rejected_by": r.violated})
-    return first
-
-
-def _from_tlc(v):
-    """parse_value output (tuples / frozensets / dicts) -> JSON-like abstract object."""
-    if isinstance(v, dict):
-        return {k: _from_tlc(x) for k, x in v.items()}
-    if isinstance(v, (tuple, list)):
-        return [_from_tlc(x) for x in v]
-    if isinstance(v, frozenset):
-        return sorted(_from_tlc(x) for x in v)
-    return v
 
 
 # ===================================================================== entry points
@@ -1053,7 +1033,7 @@ def run(rep, tier, seed):
     with scratch("c20-") as d:
         rows_dir = os.path.join(d, "rows")
         os.makedirs(rows_dir)
-        first = run_models(rep, tier, d, rows_dir)
+        run_models(rep, os.environ.get("C20_UNIVERSE", tier), d, rows_dir)
         meta = json.load(open(os.path.join(rows_dir, "meta.json")))
         lcm = meta["lcm"]
         w = XWorld()
@@ -1064,13 +1044,6 @@ def run(rep, tier, seed):
         if len(files) != meta["nobj"]:
             rep.machinery(f"TLC emitted {len(files)} rows for {meta['nobj']} objects")
         agg = {}
-        # the design-level counter-example is the first replay target
-        if first is not None:
-            o = _from_tlc(first["x"])
-            r = judge(w, o, lcm, confs)
-            rep.cov["first_replay_target"] = {"obj": r["obj"], "real_violation": bool(r["issues"])}
-            if not r["issues"]:
-                rep.spec_drift(f"TLC's counter-example of the faithful design ({r['obj']}) round-trips on the real code")
         nproc = min(16, max(1, len(files) // 50))
         chunks = [(files[i::nproc * 8], lcm, seed) for i in range(nproc * 8)]
         with mp.get_context("fork").Pool(nproc) as pool:
